@@ -2510,6 +2510,17 @@ def reset_data(m: types.Model, d: types.Data, reset: Optional[wp.array] = None):
     cvel_out[worldid, bodyid][elemid] = 0.0
 
   @wp.kernel(module="unique", enable_backward=False, grid_stride=False)
+  def reset_efc_J(reset_in: wp.array[bool], efc_J_out: wp.array3d[float]):
+    worldid, rowid, colid = wp.tid()
+
+    if wp.static(reset is not None):
+      if not reset_in[worldid]:
+        return
+
+    # rows >= nefc are read (with zero weight) by the dense solver: a stale NaN there survives the reset
+    efc_J_out[worldid, rowid, colid] = 0.0
+
+  @wp.kernel(module="unique", enable_backward=False, grid_stride=False)
   def reset_M(reset_in: wp.array[bool], M_out: wp.array2d[float]):
     worldid, elemid = wp.tid()
 
@@ -2757,6 +2768,8 @@ def reset_data(m: types.Model, d: types.Data, reset: Optional[wp.array] = None):
     inputs=[reset_input],
     outputs=[d.M],
   )
+
+  wp.launch(reset_efc_J, dim=d.efc.J.shape, inputs=[reset_input], outputs=[d.efc.J])
 
   # set mocap_pos/quat = body_pos/quat for mocap bodies
   wp.launch(
